@@ -248,7 +248,7 @@ class C16(Check):
     level = 'exploration'
     rule = ('raw log records = mandatory keys + subsets of the 31 optional keys: every subset with <=3 keys present and every subset '
             'with <=3 keys absent (quick: <=2 / <=2), the full product over the 8 string-index keys (2^8) and over the 10 '
-            'loss/signpost keys (2^10); timestamps sec {0,1,1.6e9,2^31-1,2^32-1} x usec {0,1,499999,500000,999999}; log types (5); '
+            'loss/signpost keys (2^10); timestamps sec {0,1,1.6e9,2^31-1,2^32-1} x usec {0,1,499999,500000,999999}; every string key pointing at string-index slot 0; log types (5); '
             'decomposed messages: every single-segment shape over the optional sub-keys (2 x 25 x 145), all pairs over a reduced '
             'set, and literal-only segments before/after/between placeholder segments (placeholder count < segment count); trace identifiers: namespace (7) x every type the format defines for it x all 64 values of the general flag bits x '
             'namespace flags (log: all 32 subsets; trace: 9 values incl. 0; 0 elsewhere) x code {0,1,2^32-1}; decoded directly '
@@ -290,6 +290,17 @@ class C16(Check):
                     self._rec(acc, {'p'}, 'direct', {'ud': {'sec': sec, 'usec': usec}})
             for lt in LOG_TYPES:
                 self._rec(acc, {'lt'}, 'direct', {'lt': lt})
+            # string-index slot 0 is a slot like any other
+            for k in STRING_KEYS:
+                self._rec(acc, {k}, 'direct', {k: 0})
+                self._rec(acc, set(KEYS), 'direct', {k: 0})
+            self._rec(acc, set(STRING_KEYS), 'direct', {k: 0 for k in STRING_KEYS})
+            self._rec(acc, set(STRING_KEYS), 'v3', {k: 0 for k in STRING_KEYS})
+            # segments: an argument without a placeholder, with and without a literal prefix
+            for a in ({'c': 1, 'sc': 7, 'st': 8}, {'c': 2, 'or': 9}, {'c': 3, 'a': 3, 'or': 5, 'p': 1}):
+                for seg in ({'a': a}, {'lp': 9, 'a': a}):
+                    self._rec(acc, {'dm'}, 'direct', {'dm': {'pc': 1, 's': 2, 'seg': [seg]}})
+                    self._rec(acc, {'dm'}, 'direct', {'dm': {'pc': 2, 's': 2, 'seg': [{'p': {'w': 1, 'p': 2}}, seg]}})
         elif kind == 'v3':
             for k in range(2):
                 for sub in itertools.combinations(KEYS, k):
